@@ -166,7 +166,8 @@ def run(ctx):
                construct="exit range of self.%s" % k, detail="interval analysis gives %r" % (v,), analysis="IVL")
     sm = prog.method(cls.qualname, "_set_months", "C09.NORM")
     smcfg = ctx.cfg(sm)
-    yw = [n for n in smcfg.live_nodes() if n.kind == "stmt" and isinstance(n.ast, ast.Assign) and src(n.ast.targets[0]) == "self.years"]
+    from ..rules_common import assigns_attr
+    yw = [n for n in smcfg.live_nodes() if assigns_attr(n, "self.years")]
     path = smcfg.path_avoiding(smcfg.entry, [smcfg.exit], avoid_nodes=yw)
     ctx.ob("C09.NORM", sm, "_set_months defines years on every path (assignment, not accumulation: it is re-run by the loop)",
            path is None and all(isinstance(n.ast, ast.Assign) for n in yw), construct="self.years in _set_months")
